@@ -50,15 +50,16 @@ REQUIRED_COUNTERS = ['specs_parsed', 'simulations_compared',
                      'expand_calls_checked', 'runs_form_specs',
                      'list_of_ranges_specs',
                      'expansions_after_reregistration',
-                     'splitting_simulations_expanded']
+                     'splitting_simulations_expanded',
+                     'specs_written_by_generate_input']
 
 CODE_POOL = {
     'Toric2DCode': [(2, 2), (3, 3), (2, 3), (3, 4), (4, 4)],
     'Planar2DCode': [(2, 2), (3, 3), (2, 3), (4, 3), (3, 5)],
     'RotatedPlanar2DCode': [(2, 2), (3, 3), (2, 3), (4, 3), (5, 5)],
-    'Toric3DCode': [(2, 2, 2), (2, 3, 2), (3, 3, 3)],
-    'Planar3DCode': [(2, 2, 2), (2, 3, 2), (3, 2, 2)],
-    'RotatedPlanar3DCode': [(2, 2, 2), (3, 2, 2), (2, 2, 3)],
+    'Toric3DCode': [(2, 2, 2), (2, 3, 2), (3, 3, 3), (2, 2, 3), (3, 3, 2)],
+    'Planar3DCode': [(2, 2, 2), (2, 3, 2), (3, 2, 2), (2, 2, 3), (3, 3, 2)],
+    'RotatedPlanar3DCode': [(2, 2, 2), (3, 2, 2), (2, 2, 3), (3, 3, 2)],
     'RotatedToric3DCode': [(2, 2, 2), (2, 4, 2)],
     'XCubeCode': [(2, 2, 2), (2, 2, 3)],
     'Color666PlanarCode': [(1, 1), (2, 2), (3, 3)],
@@ -142,6 +143,13 @@ def gen_ranges(rng):
         code_params = dict(zip(keys, pick[0]))
     elif form == 'dict':
         code_params = [dict(zip(keys, s)) for s in pick]
+        # a side equal to L_x may be left out (it defaults to L_x), also a
+        # middle one: {'L_x': 2, 'L_z': 3}
+        for cp, sz in zip(code_params, pick):
+            if len(sz) == 3 and sz[1] == sz[0] and rng.random() < 0.6:
+                del cp['L_y']
+            elif len(sz) == 2 and sz[1] == sz[0] and rng.random() < 0.3:
+                del cp['L_y']
     else:
         code_params = [list(s) for s in pick]
     # error models
@@ -712,7 +720,7 @@ def run_direct_roundtrips(task, out):
 
 
 def plan(tier, seed):
-    tasks = [{'kind': 'registry', 'cost': 50},
+    tasks = [{'kind': 'registry', 'cost': 50}, {'kind': 'cli', 'cost': 300},
              {'kind': 'direct', 'seed': seed, 'cost': 400}]
     n = 400 if tier == 'quick' else 4000
     per = 25 if tier == 'quick' else 50
@@ -722,7 +730,30 @@ def plan(tier, seed):
     return tasks
 
 
+def run_cli(task, out):
+    """Specifications as `panqec generate-input` writes them, lattice sides
+    of one and two digits, read back and compared with the request."""
+    from pv.checks import c19
+    base = os.environ.get('PV_WORK') or tempfile.gettempdir()
+    for cls, dim, dec, sizes in (
+            ('Toric2DCode', 2, 'MatchingDecoder', ['8x8', '10x10', '12x14']),
+            ('Planar2DCode', 2, 'BeliefPropagationOSDDecoder',
+             ['3x3', '11', '4x10']),
+            ('Toric3DCode', 3, 'BeliefPropagationOSDDecoder',
+             ['2x2x2', '10x2x2', '2x3x12'])):
+        for method in ('direct', 'splitting'):
+            case = {'cls': cls, 'dim': dim, 'decoder': dec, 'sizes': sizes,
+                    'bias': 'Z', 'etas': ['10', 'inf'], 'prob': '0.1,0.2',
+                    'form': 'list', 'rates': [0.1, 0.2], 'deformation': None,
+                    'method': method, 'label': None}
+            c19.run_case(out, case, base)
+            out.count('specs_written_by_generate_input')
+
+
 def run_task(task, out):
+    if task['kind'] == 'cli':
+        run_cli(task, out)
+        return
     if task['kind'] == 'registry':
         check_reregistration(out)
         check_registries(out)
